@@ -296,7 +296,7 @@ theorem drop_never_delivered (R : P → Prop) (ticks : List (TickIn P)) (s : Sch
 
 /-- The statement in its direct form: from an empty queue, every delivered packet was egressed
     in one of the ticks with a verdict other than `Drop`. -/
-theorem drop_never_delivered' (ticks : List (TickIn P)) :
+theorem drop_never_delivered_direct (ticks : List (TickIn P)) :
     ∀ p ∈ allDelivered ({} : Sched P) ticks, ∃ t ∈ ticks, p ∈ t.egress ∧ t.verdict p ≠ .drop :=
   drop_never_delivered (fun p => ∃ t ∈ ticks, p ∈ t.egress ∧ t.verdict p ≠ .drop) ticks {}
     (by simp) (fun t ht p hp hv => ⟨t, ht, hp, hv⟩)
